@@ -1,6 +1,7 @@
 import GateryModel.C12.LemmasInfer
 import GateryModel.C12.LemmasDom
 import GateryModel.C12.OrderDependence
+import GateryModel.C12.LemmasTerm
 /-!
 # C12 — property theorems
 
@@ -51,6 +52,19 @@ theorem dom_is_grounded (g : Graph) (hc : g.Closed) (hacyc : g.Acyclic) : Ground
 theorem admissible_is_grounded (g : Graph) (D : Nat → Dom) (hc : g.Closed) (hacyc : g.Acyclic) (ha : Admissible g D) :
     Grounded g D :=
   grounded_of_acyclic hc hacyc ha
+
+/-- **Termination.** Whichever member of the retry set is taken next, one iteration of the `while` loop of `attemptResolve`
+    keeps all port numbers in range and strictly decreases (number of unassigned ports, size of the retry set)
+    lexicographically … -/
+theorem retry_step_decreases (g : Graph) (σ : St) (p : Nat) (hin : InRange g σ) (hp : p ∈ σ.retry) :
+    InRange g (process g (σ.pop p) p) ∧
+    Prod.Lex (· < ·) (· < ·) (measure g (process g (σ.pop p) p)) (measure g σ) :=
+  pop_step_decreases hin hp
+
+/-- … hence there is no infinite sequence of iterations: the loop terminates for every order of serving the retry set. -/
+theorem retry_loop_wellfounded (g : Graph) :
+    WellFounded (fun τ σ : St => InRange g σ ∧ ∃ p, p ∈ σ.retry ∧ τ = process g (σ.pop p) p) :=
+  retry_loop_terminates g
 
 /-- **`infer = dom` does not hold** (so confluence is stated for the verdict, and for the map only up to pin source on
     accepted designs): there is an acyclic graph and two visiting orders, both executed exactly as the code does
